@@ -126,11 +126,19 @@ fn body(ch: &Ch) -> Run {
   }
   let sched = Sched::new(SchedMode::Immediate);
   let loader = ScriptedLoader::new(sched);
+  // history: the program may be built in two steps on one graph (root.ts with
+  // the first imports, then root2.ts with the rest), and the lockfile may
+  // already hold the selections for the program's own requirements
+  let split = if root_imports.len() >= 2 { ch.choose("second_build_starts_at_import", root_imports.len()) } else { 0 };
+  let seed_lockfile = ch.choose("lockfile_holds_the_programs_selections", 2) == 1;
   let mut root_src = String::new();
+  let mut root2_src = String::new();
   for (i, t) in root_imports.iter().enumerate() {
-    root_src.push_str(&format!("import * as r{i} from \"{t}\";\n"));
+    let line = format!("import * as r{i} from \"{t}\";\n");
+    if split > 0 && i >= split { root2_src.push_str(&line) } else { root_src.push_str(&line) }
   }
   loader.add_text("https://x/root.ts", &root_src);
+  loader.add_text("https://x/root2.ts", &root2_src);
   for pkg in ["@s/a", "@s/b"] {
     let p = RegPackage {
       name: pkg.into(),
@@ -149,7 +157,23 @@ fn body(ch: &Ch) -> Run {
   }
   let npm = ScriptedNpmResolver::default();
   let mut g = ModuleGraph::new(GraphKind::All);
-  let r = build_graph(
+  if seed_lockfile {
+    let seeds: Vec<(deno_semver::jsr::JsrDepPackageReq, String)> = root_imports
+      .iter()
+      .filter_map(|t| parse_jsr(t))
+      .map(|(pkg, req, _)| {
+        (
+          deno_semver::jsr::JsrDepPackageReq::jsr(deno_semver::package::PackageReq::from_str(&format!("{pkg}@{req}")).unwrap()),
+          pick_version(&req).to_string(),
+        )
+      })
+      .collect();
+    g.fill_from_lockfile(deno_graph::FillFromLockfileOptions {
+      redirects: std::iter::empty(),
+      package_specifiers: seeds.iter().map(|(a, b)| (a, b.as_str())),
+    });
+  }
+  let mut r = build_graph(
     &mut g,
     vec![url("https://x/root.ts")],
     &loader,
@@ -159,9 +183,23 @@ fn body(ch: &Ch) -> Run {
     },
     ch,
   );
+  if split > 0 && r.is_ok() {
+    r = build_graph(
+      &mut g,
+      vec![url("https://x/root2.ts")],
+      &loader,
+      BuildCfg {
+        npm: Some(&npm),
+        ..Default::default()
+      },
+      ch,
+    );
+  }
   run.evals = 1;
   let describe = json!({
     "root": root_src,
+    "root2_built_afterwards_on_the_same_graph": if split > 0 { Some(&root2_src) } else { None },
+    "lockfile_holds_the_programs_selections": seed_lockfile,
     "packages": fx.versions.iter().map(|((p, v), (shape, files))| json!({"nv": format!("{p}@{v}"), "exports": exports_of(shape), "files": files})).collect::<Vec<_>>(),
   });
   let case = |extra: Value| json!({"registry": describe, "detail": extra});
